@@ -49,7 +49,8 @@ def run_shards(mod, modname, specs, scratch):
         timeout = spec.get("timeout", 1500)
         e = env.worker_env(with_stubs=with_stubs, extra={"VMON_SCRATCH": scratch, "JUPYTER_CONFIG_DIR": os.path.join(scratch, "jupcfg"), "HOME": os.path.join(scratch, "home")})
         try:
-            p = subprocess.run([env.PY, "-m", "vmon.worker", modname, sf, of], env=e, cwd=scratch,
+            # spec["python_flags"]: interpreter options for this shard, e.g. ["-O"] (assert statements compiled away)
+            p = subprocess.run([env.PY] + list(spec.get("python_flags", [])) + ["-m", "vmon.worker", modname, sf, of], env=e, cwd=scratch,
                                stdout=subprocess.PIPE, stderr=subprocess.PIPE, timeout=timeout)
         except subprocess.TimeoutExpired:
             return {"inconclusive": ["shard %d watchdog (%ds) expired" % (i, timeout)]}
@@ -106,6 +107,9 @@ def main(argv=None):
             specs = [{"replay": case, "seed": seed, "tier": args.tier}]
         else:
             specs = mod.plan(args.tier, seed)
+            # OPTIMIZED_SHARDS: copies of these shards (own seed) run under `python -O` - assert statements compiled
+            # away, as PYTHONOPTIMIZE=1 deployments run; nbdime leans on assert for its sanity checks
+            specs += [dict(specs[i], python_flags=["-O"]) for i in getattr(mod, "OPTIMIZED_SHARDS", ())]
             for i, s in enumerate(specs):
                 s.setdefault("shard", i)
                 s.setdefault("tier", args.tier)
